@@ -412,6 +412,17 @@ func ErrCode(err error) int {
 	return -1
 }
 
+// ErrNum maps an error to csvq's error number (0 = no error, -1 = not a csvq error).
+func ErrNum(err error) int {
+	if err == nil {
+		return 0
+	}
+	if e, ok := err.(query.Error); ok {
+		return e.Number()
+	}
+	return -1
+}
+
 func SortedKeys(m map[string]int) []string {
 	ks := make([]string, 0, len(m))
 	for k := range m {
